@@ -11,7 +11,8 @@ PROP = {
                    "allocator for writes into released pool memory; event-log rules of C01 on every operation."),
     "level_note": ("The census is behavioural on purpose: probing BufferPool::take(id) would itself hand out a buffer the kernel "
                    "may own. Trusted: kernel buffer-ring semantics (IORING_OP_PROVIDE via mapped ring), -ENOBUFS on exhaustion. "
-                   "UDP / recv_msg managed variants are exercised by the C14 workloads."),
+                   "UDP / recv_msg managed variants are exercised by the C14 workloads."
+                   " Builds: the fusion build (both drivers in one binary) carries the bulk of the runs; the legs `iour-only` / `poll-only` repeat the workloads with compio-driver compiled for a single driver (io-uring only is the default build of compio), so the #[cfg(not(fusion))] glue is exercised too, at a smaller volume."),
     "technique": "runtime monitoring: aliasing/stability/conservation monitors over seeded managed-read programs, canary allocator, ASan",
     "rule": ("programs = seeded action lists {managed read, multishot read, feed, poll, pop (hold the buffer), release, cancel, key "
              "drop, check, proactor drop} x driver x pool size x buffer length; non-trivial if a buffer was held across a later "
@@ -24,6 +25,16 @@ PROP = {
          "timeout_s": {"quick": 240, "thorough": 900}},
         {"name": "asan", "build": "asan", "pkg": "vdrv", "cmd": "c07", "shards": 8,
          "args": {"quick": ["--no-canary", "--iters", 100, "--budget-ms", 40000], "thorough": ["--no-canary", "--iters", 2500, "--budget-ms", 400000]},
+         "timeout_s": {"quick": 240, "thorough": 900}},
+        # single-driver configuration (the default build of compio): the #[cfg(not(fusion))] glue of compio-driver
+        {"name": "iour-only", "build": "plain-iour", "pkg": "vdrv", "cmd": "c07", "shards": 3,
+         "args": {"quick": [] + ["--driver", "iour", "--iters", 250, "--budget-ms", 40000],
+                  "thorough": [] + ["--driver", "iour", "--iters", 5000, "--budget-ms", 300000]},
+         "timeout_s": {"quick": 240, "thorough": 900}},
+        # single-driver configuration (polling only): the #[cfg(not(fusion))] glue of compio-driver
+        {"name": "poll-only", "build": "plain-poll", "pkg": "vdrv", "cmd": "c07", "shards": 3,
+         "args": {"quick": [] + ["--driver", "poll", "--iters", 250, "--budget-ms", 40000],
+                  "thorough": [] + ["--driver", "poll", "--iters", 5000, "--budget-ms", 300000]},
          "timeout_s": {"quick": 240, "thorough": 900}},
     ],
 }
